@@ -12,7 +12,7 @@
       VTmRemove / VMgrUnlock / VSessRemove      Unlock: lockTimerMgr.Remove; lockMgr.Unlock; sessionMgr.RemoveLock
       VTmReset                                  Renew: lockTimerMgr.Reset (Stop + re-arm under timersMtx)
       VCbUnlock / VCbSessRemove / VCbTmRemove   lease-timer callback: onTimeoutFunc's Unlock and RemoveLock, TimerMap's own Remove
-      VDsFlag / VDsNoClear / VDsDestroy / VDsTmRemove i / VDsUnlock i     DestroySession (timer removed before the unlock)
+      VDsFlag / VDsNoClear (atomic DestroySessionIfEmpty) / VDsDestroy / VDsTmRemove i / VDsUnlock i     DestroySession (timer removed before the unlock)
       VShFlag / VShNet / VShTimers / VShMgr     cmd/server closer: PrepareShutdown; netCloser; timer map shutdown; manager shutdown
 
     The state file is rewritten through a temporary file and an atomic rename (store.Write), so a rewrite is one step:
@@ -204,6 +204,14 @@ Definition sess_destroy (cfg : svcfg) (tid : nat) (sid : str) (s : svstate) : sv
   | None => (s, [])
   end.
 
+(** after the session's entry has been taken: nothing left to release = DestroySession returns (no further synchronised step) *)
+Definition ds_next (todo : list clock) : spc := match todo with [] => VEnd | _ => VDsTmRemove todo end.
+(** connections that were opened and have not ended, oldest first (ghost trace, newest first) *)
+Definition ended_in (tr : list sev) (sid : str) : bool :=
+  existsb (λ e, match e with SvConnEnd sid' => bool_decide (sid' = sid) | _ => false end) tr.
+Definition open_sids (tr : list sev) : list str :=
+  omap (λ e, match e with SvConnect sid => if ended_in tr sid then None else Some sid | _ => None end) (rev tr).
+
 (** ** one step of thread [tid] *)
 Definition acq_params (o : sop) : option (str * str * str * Z * option Z) :=
   match o with STry sid n k z lt | SLock sid n k z lt => Some (sid, n, k, z, lt) | _ => None end.
@@ -283,29 +291,32 @@ Definition vrun_thread (cfg : svcfg) (tid : nat) (t : sthread) (s : svstate) : s
   (* ---- DestroySession ---- *)
   | VDsFlag, SConnEnd sid => if v_shut s then vset_pc tid VEnd s else vset_pc tid (if sc_noclear cfg then VDsNoClear else VDsDestroy) s
   | VDsNoClear, SConnEnd sid =>
-      if negb (bool_decide (default [] (v_sess s !! sid) = [])) then vset_pc tid VEnd s else vset_pc tid VDsDestroy s
+      (* sessionMgr.DestroySessionIfEmpty: check for locks and delete the session in ONE critical section *)
+      match v_sess s !! sid with
+      | Some [] => vset_pc tid VEnd (fst (sess_destroy cfg tid sid s))
+      | _ => vset_pc tid VEnd s
+      end
   | VDsDestroy, SConnEnd sid =>
-      let '(s1, locks) := sess_destroy cfg tid sid s in
-      if sc_noclear cfg then vset_pc tid VEnd s1 else vset_pc tid (VDsTmRemove locks) s1
+      let '(s1, locks) := sess_destroy cfg tid sid s in vset_pc tid (ds_next locks) s1
   | VDsTmRemove todo, SConnEnd sid =>
       (* the timer is removed BEFORE the unlock (as in Unlock); a timer that already fired unlocks the hold itself *)
       match todo with
       | [] => vset_pc tid VEnd s
       | c :: rest =>
           let '(s1, stopped) := tm_remove (tkey (cl_name c) (cl_key c)) s in
-          if stopped then vset_pc tid (VDsUnlock c rest) s1 else vset_pc tid (VDsTmRemove rest) s1
+          if stopped then vset_pc tid (VDsUnlock c rest) s1 else vset_pc tid (ds_next rest) s1
       end
   | VDsUnlock c rest, SConnEnd sid =>
-      vset_pc tid (VDsTmRemove rest) (fst (mgr_unlock tid (cl_name c) (cl_key c) s))
+      vset_pc tid (ds_next rest) (fst (mgr_unlock tid (cl_name c) (cl_key c) s))
   (* ---- graceful shutdown ---- *)
   | VShFlag, SShutdown => vset_pc tid VShNet (s <| v_shut := true |>)
   | VShNet, SShutdown =>
-      (* grpc Stop(): every connection ends (in-flight contexts end, ConnEnd is delivered for every session) *)
+      (* grpc Stop(): every OPEN connection ends (in-flight contexts end, ConnEnd is delivered once per open connection) *)
       let s1 := s <| v_thr := (λ t, match st_op t, st_cancel t with
                                     | (STry _ _ _ _ _ | SLock _ _ _ _ _ | SUnlock _ _ | SRenew _ _ _), None =>
                                         if is_fin (st_pc t) then t else t <| st_cancel := Some ECtxCanceled |>
                                     | _, _ => t end) <$> v_thr s |> in
-      let s2 := fold_left (λ s '(sid, _), spawn (SConnEnd sid) VDsFlag s) (map_to_list (v_sess s1)) s1 in
+      let s2 := fold_left (λ s sid, vemit (SvConnEnd sid) (spawn (SConnEnd sid) VDsFlag s)) (open_sids (v_trace s1)) s1 in
       vset_pc tid VShTimers s2
   | VShTimers, SShutdown =>
       vset_pc tid VShMgr
